@@ -121,7 +121,7 @@ def skeleton_rules(ctx, F):
     # iter_limit initialised from objects.len()
     new = F.fn("PageTreeIter::new")
     lits = list(lib.struct_literals(new, "PageTreeIter"))
-    ctx.floor(R, "PageTreeIter literals in new", len(lits), 2)
+    ctx.floor(R, "PageTreeIter literals in new", len(lits), 1)
     for bi, s, fields in lits:
         t = new.oname(fields["iter_limit"], 4)
         ctx.ob(R, "iter_limit-init|new", "len(" in t and "objects" in t, "iter_limit is initialised from %s" % t, new.where(s["ln"]),
